@@ -393,7 +393,11 @@ def deserialize_single_field(  # pylint: disable=too-many-branches
         value = field.deserialize(source_val)
     elif isinstance(field, Anything) or field is None:
         value = source_val
-    elif isinstance(field, TypedField) and isinstance(source_val, (list, dict)):
+    elif (
+        isinstance(field, TypedField)
+        and not isinstance(field, NoneField)
+        and isinstance(source_val, (list, dict))
+    ):
         ty = getattr(field, "_ty")
         if isinstance(source_val, list):
             value = ty(*source_val)
